@@ -176,6 +176,10 @@ variable (g : G) (c : Client) (w : WEvent) (res : WriteRes) (rev : Nat)
 @[simp] theorem G.notify_done : (g.notify w).done = g.done := by unfold G.notify; split <;> rfl
 @[simp] theorem G.notify_clients : (g.notify w).clients = g.clients := by unfold G.notify; split <;> rfl
 @[simp] theorem G.notify_cfg : (g.notify w).cfg = g.cfg := by unfold G.notify; split <;> rfl
+@[simp] theorem G.notify_retryPc : (g.notify w).retryPc = g.retryPc := by unfold G.notify; split <;> rfl
+@[simp] theorem G.notify_retryQ : (g.notify w).retryQ = g.retryQ := by unfold G.notify; split <;> rfl
+@[simp] theorem G.setClient_retryPc : (g.setClient c).retryPc = g.retryPc := rfl
+@[simp] theorem G.finish_retryPc : (g.finish c res rev).retryPc = g.retryPc := rfl
 end fields
 
 theorem finishCreate_store_wlog (g : G) (c : Client) (key val : Bytes) (rev : Nat) (r : CommitRes) :
@@ -385,41 +389,90 @@ theorem stepClient_noW (g : G) (c : Client) (f : Fault) : NoW g (stepClient g c 
   · intros; split <;> exact .inl ⟨rfl, rfl⟩
   · exact .inl ⟨rfl, rfl⟩
 
-theorem stepRetry_cases {P : G → Prop} (g : G) (f : Fault)
-    (hNop : P g) (hPop : ∀ rest, P { g with retryQ := rest })
-    (hWrite : ∀ w rest q val r st, g.retryQ = w :: rest → getInternal g.cfg g.store w.key 0 = some (val, w.rev) →
-      doCommit g.cfg g.store
-        [BOp.cas (idxKey w.key) (be8 (g.dealt + 1) ++ if isTomb val then [0] else []) (be8 w.rev ++ if isTomb val then [0] else []),
-         BOp.put (encode w.key (g.dealt + 1)) val] f = (r, st) →
-      P ((afterCommit { g with dealt := g.dealt + 1, retryQ := q } r st f w.key (g.dealt + 1)
-            (if isTomb val then none else some val) (.rev w.rev)).notify
-          { w with rev := g.dealt + 1, valid := r == .ok, uncertain := r == .uncertain })) :
-    P (stepRetry g f) := by
-  unfold stepRetry
+/-- Case analysis of the retry loop's read step. -/
+theorem stepRetryRead_cases {P : G → Prop} (g : G)
+    (hBusy : ∀ p, g.retryPc = some p → P g)
+    (hNop : g.retryPc = none → g.retryQ = [] → P g)
+    (hPop : ∀ w rest, g.retryPc = none → g.retryQ = w :: rest →
+      (getInternal g.cfg g.store w.key 0 = none ∨
+        ∃ val m, getInternal g.cfg g.store w.key 0 = some (val, m) ∧ (val = [] ∨ m ≠ w.rev)) →
+      P { g with retryQ := rest })
+    (hDeal : ∀ w rest val, g.retryPc = none → g.retryQ = w :: rest →
+      getInternal g.cfg g.store w.key 0 = some (val, w.rev) → val ≠ [] →
+      P { g with dealt := g.dealt + 1, retryPc := some { w := w, rev := g.dealt + 1, val := val } }) :
+    P (stepRetryRead g) := by
+  unfold stepRetryRead
   split
-  · exact hNop
-  · split
-    · exact hPop _
+  · exact hBusy _ ‹_›
+  · rename_i hn
+    split
+    · exact hNop hn ‹_›
     · split
-      · exact hPop _
-      · rename_i w rest hq _ val modRev hget hc
-        simp only [Bool.or_eq_true, beq_iff_eq, bne_iff_ne, ne_eq, not_or, Decidable.not_not] at hc
-        obtain ⟨_, rfl⟩ := hc
-        simp only []
-        generalize hdc : doCommit g.cfg g.store _ f = p
-        obtain ⟨r, st⟩ := p
-        have hL := hWrite w rest (if r == CommitRes.ok || r.isCas then rest else w :: rest) _ r st hq hget hdc
-        simpa only [afterCommit] using hL
+      · exact hPop _ _ hn ‹_› (.inl ‹_›)
+      · split
+        · rename_i w rest hq _ val modRev hget hc
+          refine hPop _ _ hn hq (.inr ⟨val, modRev, hget, ?_⟩)
+          simp only [Bool.or_eq_true, beq_iff_eq, bne_iff_ne, ne_eq, List.length_eq_zero_iff] at hc
+          exact hc
+        · rename_i w rest hq _ val modRev hget hc
+          simp only [Bool.or_eq_true, beq_iff_eq, bne_iff_ne, ne_eq, not_or, Decidable.not_not,
+            List.length_eq_zero_iff] at hc
+          obtain ⟨hne, rfl⟩ := hc
+          exact hDeal w rest val hn hq hget hne
 
-theorem stepRetry_noW (g : G) (f : Fault) : NoW g (stepRetry g f) := by
-  apply stepRetry_cases
-  · exact .inl ⟨rfl, rfl⟩
+/-- Case analysis of the retry loop's commit step, with the tuple match resolved. -/
+theorem stepRetryCommit_cases {P : G → Prop} (g : G) (f : Fault)
+    (hNop : g.retryPc = none → P g)
+    (hWrite : ∀ p r st, g.retryPc = some p →
+      doCommit g.cfg g.store
+        [BOp.cas (idxKey p.w.key) (be8 p.rev ++ if isTomb p.val then [0] else []) (be8 p.w.rev ++ if isTomb p.val then [0] else []),
+         BOp.put (encode p.w.key p.rev) p.val] f = (r, st) →
+      P ((afterCommit { g with retryPc := none, retryQ := if r == CommitRes.ok || r.isCas then g.retryQ.drop 1 else g.retryQ }
+            r st f p.w.key p.rev (if isTomb p.val then none else some p.val) (.rev p.w.rev)).notify
+          { p.w with rev := p.rev, valid := r == .ok, uncertain := r == .uncertain })) :
+    P (stepRetryCommit g f) := by
+  unfold stepRetryCommit
+  split
+  · exact hNop ‹_›
+  · rename_i p hp
+    simp only []
+    generalize hdc : doCommit g.cfg g.store _ f = q
+    obtain ⟨r, st⟩ := q
+    have hL := hWrite p r st hp hdc
+    simpa only [afterCommit] using hL
+
+theorem stepRetryRead_noW (g : G) : NoW g (stepRetryRead g) := by
+  apply stepRetryRead_cases
+  · intros; exact .inl ⟨rfl, rfl⟩
+  · intros; exact .inl ⟨rfl, rfl⟩
+  · intros; exact .inl ⟨rfl, rfl⟩
+  · intros; exact .inl ⟨rfl, rfl⟩
+
+theorem stepRetryCommit_noW (g : G) (f : Fault) : NoW g (stepRetryCommit g f) := by
+  apply stepRetryCommit_cases
   · intro _; exact .inl ⟨rfl, rfl⟩
-  · intro w rest q val r st _ _ hdc
-    have h := NoW.afterCommit (g := { g with dealt := g.dealt + 1, retryQ := q }) hdc w.key (g.dealt + 1)
-      (if isTomb val then none else some val) (.rev w.rev)
-    exact NoW.of_eq (g1 := afterCommit { g with dealt := g.dealt + 1, retryQ := q } r st f w.key (g.dealt + 1)
-      (if isTomb val then none else some val) (.rev w.rev)) h (by simp) (by simp)
+  · intro p r st _ hdc
+    have h := NoW.afterCommit (g := { g with retryPc := none, retryQ := if r == CommitRes.ok || r.isCas then g.retryQ.drop 1 else g.retryQ })
+      hdc p.w.key p.rev (if isTomb p.val then none else some p.val) (.rev p.w.rev)
+    exact NoW.of_eq (g1 := afterCommit { g with retryPc := none, retryQ := if r == CommitRes.ok || r.isCas then g.retryQ.drop 1 else g.retryQ }
+      r st f p.w.key p.rev (if isTomb p.val then none else some p.val) (.rev p.w.rev)) h (by simp) (by simp)
+
+/-- a whole `retry()`: at most one of its two steps applies a batch -/
+theorem stepRetry_noW (g : G) (f : Fault) : NoW g (stepRetry g f) := by
+  unfold stepRetry
+  rcases stepRetryRead_noW g with ⟨h1, h2⟩ | ⟨x, hx⟩
+  · rcases stepRetryCommit_noW (stepRetryRead g) f with ⟨h3, h4⟩ | ⟨y, hy⟩
+    · exact .inl ⟨h3.trans h1, h4.trans h2⟩
+    · exact .inr ⟨y, by rw [hy, h2]⟩
+  · -- the read applies nothing
+    exfalso
+    have : NoW g (stepRetryRead g) → (stepRetryRead g).wlog = g.wlog := by
+      intro _
+      apply stepRetryRead_cases (P := fun g' => g'.wlog = g.wlog) <;> intros <;> rfl
+    have := this (.inr ⟨x, hx⟩)
+    rw [this] at hx
+    have := congrArg List.length hx
+    simp at this
 
 theorem act_noW (g : G) (a : Action) : NoW g (act g a) := by
   cases a with
@@ -430,6 +483,8 @@ theorem act_noW (g : G) (a : Action) : NoW g (act g a) := by
     · exact stepClient_noW ..
   | seq => unfold act stepSeq; simp only []; split <;> exact .inl ⟨rfl, rfl⟩
   | retry f => exact stepRetry_noW g f
+  | retryRead => exact stepRetryRead_noW g
+  | retryCommit f => exact stepRetryCommit_noW g f
 
 theorem act_store_of_wlog (g : G) (a : Action) (h : (act g a).wlog = g.wlog) :
     (act g a).store = g.store := by
@@ -947,6 +1002,20 @@ def Dn (done : List Done) : Prop :=
 
 def toH (w : WLog) : HWrite := { key := w.key, rev := w.rev, val := w.val }
 
+/-- the retry loop between its read and its commit: the revision it was dealt is fresh and above the
+revision it repairs -/
+def RpOK (g0 : G) (dealt : Nat) (wlog : List WLog) (rp : Option RetryPc) : Prop :=
+  ∀ p, rp = some p → Fresh g0 dealt wlog p.rev ∧ p.w.rev < p.rev
+
+theorem RpOK.mono {g0 : G} {d d' : Nat} {wl : List WLog} {rp : Option RetryPc} (h : RpOK g0 d wl rp) (hd : d ≤ d') :
+    RpOK g0 d' wl rp := fun p hp => ⟨(h p hp).1.mono hd, (h p hp).2⟩
+
+theorem RpOK.log {g0 : G} {d : Nat} {wl : List WLog} {rp : Option RetryPc} (h : RpOK g0 d wl rp) {w : WLog}
+    (hw : ∀ p, rp = some p → p.rev ≠ w.rev) : RpOK g0 d (wl ++ [w]) rp :=
+  fun p hp => ⟨(h p hp).1.log (fun e => hw p hp e.symm), (h p hp).2⟩
+
+theorem RpOK.none (g0 : G) (d : Nat) (wl : List WLog) : RpOK g0 d wl none := fun _ hp => by cases hp
+
 /-- the invariant of reachable states; `SInvE … id` leaves out the requests with identifier `id`
 (the one in the middle of its step) -/
 structure SInvE (g0 : G) (g : G) (l : List Client) : Prop where
@@ -954,6 +1023,7 @@ structure SInvE (g0 : G) (g : G) (l : List Client) : Prop where
   hist : g.hist = g.wlog.map toH
   cl : Cl g0 g.dealt g.wlog l
   dn : Dn g.done
+  rp : RpOK g0 g.dealt g.wlog g.retryPc
 
 abbrev SInv (g0 g : G) : Prop := SInvE g0 g g.clients
 
@@ -963,11 +1033,11 @@ abbrev SInv (g0 g : G) : Prop := SInvE g0 g g.clients
     (g.finish c res rev).clients = others g.clients c.id := rfl
 
 theorem SInv.toE {g0 g : G} (h : SInv g0 g) (id : Nat) : SInvE g0 g (others g.clients id) :=
-  ⟨h.core, h.hist, h.cl.sub (fun _ hx => (mem_others.mp hx).1), h.dn⟩
+  ⟨h.core, h.hist, h.cl.sub (fun _ hx => (mem_others.mp hx).1), h.dn, h.rp⟩
 
 theorem SInvE.finish {g0 g : G} {c : Client} (h : SInvE g0 g (others g.clients c.id)) {res : WriteRes} (rev : Nat)
     (hres : ∀ hdr k v m, res = .condFailed hdr (some (k, v, m)) → m ≤ hdr) : SInv g0 (g.finish c res rev) := by
-  refine ⟨h.core, h.hist, h.cl, ?_⟩
+  refine ⟨h.core, h.hist, h.cl, ?_, h.rp⟩
   intro d hd
   simp only [G.finish, List.mem_append, List.mem_singleton] at hd
   rcases hd with hd | rfl
@@ -977,17 +1047,18 @@ theorem SInvE.finish {g0 g : G} {c : Client} (h : SInvE g0 g (others g.clients c
 theorem SInvE.set {g0 g : G} {c' : Client} (h : SInvE g0 g (others g.clients c'.id))
     (hc : CInv g0 g.dealt g.wlog c')
     (hd : ∀ r, infl c' = some r → ∀ x ∈ others g.clients c'.id, infl x ≠ some r) : SInv g0 (g.setClient c') :=
-  ⟨h.core, h.hist, h.cl.set hc hd, h.dn⟩
+  ⟨h.core, h.hist, h.cl.set hc hd, h.dn, h.rp⟩
 
 theorem SInvE.notify {g0 g : G} {l : List Client} (h : SInvE g0 g l) (w : WEvent) : SInvE g0 (g.notify w) l := by
-  refine ⟨?_, ?_, ?_, ?_⟩
+  refine ⟨?_, ?_, ?_, ?_, ?_⟩
   · simpa using h.core
   · simpa using h.hist
   · simpa using h.cl
   · simpa using h.dn
+  · simpa using h.rp
 
 theorem SInvE.deal {g0 g : G} {l : List Client} (h : SInvE g0 g l) : SInvE g0 { g with dealt := g.dealt + 1 } l :=
-  ⟨h.core.mono (Nat.le_succ _), h.hist, h.cl.mono (Nat.le_succ _), h.dn⟩
+  ⟨h.core.mono (Nat.le_succ _), h.hist, h.cl.mono (Nat.le_succ _), h.dn, h.rp.mono (Nat.le_succ _)⟩
 
 theorem fresh_deal {g0 : G} {store : Store} {dealt : Nat} {wlog : List WLog} (h : Core g0 store dealt wlog) :
     Fresh g0 (dealt + 1) wlog (dealt + 1) :=
@@ -1057,8 +1128,13 @@ theorem doCommit_cas_cases {c : Cfg} {s : Store} {idx new old ver v : Bytes} {f 
     rw [hdc] at this
     exact .inr ⟨rfl, this⟩
 
+@[simp] theorem afterCommit_retryPc (g : G) (r : CommitRes) (st : Store) (f : Fault) (key : Bytes) (rev : Nat)
+    (val : Option Bytes) (exp : Expect) : (afterCommit g r st f key rev val exp).retryPc = g.retryPc := by
+  unfold afterCommit; split <;> rfl
+
 theorem SInvE.afterCommit {g0 g : G} {l : List Client} (h : SInvE g0 g l)
     {rev : Nat} (hf : Fresh g0 g.dealt g.wlog rev) (ho : ∀ x ∈ l, infl x ≠ some rev)
+    (hrp : ∀ p, g.retryPc = some p → p.rev ≠ rev)
     {r : CommitRes} {st : Store} {f : Fault} {key : Bytes} {val : Option Bytes} {exp : Expect} {new v : Bytes}
     (hnew : new = be8 rev ++ flagOf val) (hv : v = val.getD tombstone)
     (hcase : (applied r f = true ∧ st = wstore g.store key rev new v ∧
@@ -1068,15 +1144,17 @@ theorem SInvE.afterCommit {g0 g : G} {l : List Client} (h : SInvE g0 g l)
   unfold KB.SysStore.afterCommit
   rcases hcase with ⟨ha, hst, hch⟩ | ⟨ha, hst⟩
   · rw [if_pos ha]
-    refine ⟨?_, ?_, ?_, h.dn⟩
+    refine ⟨?_, ?_, ?_, h.dn, ?_⟩
     · simp only [G.logWrite, hst]
       exact h.core.write ⟨key, rev, val, exp⟩ new v hnew hv hf.1 hf.2.1 hch
     · simp [G.logWrite, h.hist, toH]
     · simp only [G.logWrite]
       exact h.cl.log ho
+    · simp only [G.logWrite]
+      exact h.rp.log hrp
   · rw [ha]
     simp only [Bool.false_eq_true, if_false, hst]
-    exact ⟨h.core, h.hist, h.cl, h.dn⟩
+    exact ⟨h.core, h.hist, h.cl, h.dn, h.rp⟩
 
 theorem afterCommit_conflict (g : G) (i : Option Nat) (cv : Option Bytes) (st : Store) (f : Fault) (key : Bytes)
     (rev : Nat) (val : Option Bytes) (exp : Expect) :
@@ -1121,7 +1199,7 @@ theorem bget_found {c : Cfg} {st : Store} {k : Bytes} {r : Nat} {v : Bytes} {m :
 
 /-- the invariant after the commit of a request holding `rev` -/
 theorem SInv.commitE {g0 g : G} (h : SInv g0 g) {c : Client} (hc : c ∈ g.clients) {rev : Nat}
-    (hinfl : infl c = some rev)
+    (hinfl : infl c = some rev) (hrp : ∀ p, g.retryPc = some p → p.rev ≠ rev)
     {r : CommitRes} {st : Store} {f : Fault} {key : Bytes} {val : Option Bytes} {exp : Expect} {new v : Bytes}
     (hnew : new = be8 rev ++ flagOf val) (hv : v = val.getD tombstone)
     (hcase : (applied r f = true ∧ st = wstore g.store key rev new v ∧
@@ -1129,12 +1207,20 @@ theorem SInv.commitE {g0 g : G} (h : SInv g0 g) {c : Client} (hc : c ∈ g.clien
              (applied r f = false ∧ st = g.store)) :
     SInvE g0 (afterCommit g r st f key rev val exp) (others (afterCommit g r st f key rev val exp).clients c.id) := by
   rw [afterCommit_clients]
-  exact (h.toE c.id).afterCommit ((h.cl.1 c hc).fresh hinfl) (h.cl.others_ne hc hinfl) hnew hv hcase
+  exact (h.toE c.id).afterCommit ((h.cl.1 c hc).fresh hinfl) (h.cl.others_ne hc hinfl) hrp hnew hv hcase
 
-theorem SInv.stepClient {g0 g : G} (h0 : G0OK g0) (h : SInv g0 g) {c : Client} (hc : c ∈ g.clients) (f : Fault) :
-    SInv g0 (stepClient g c f) := by
+theorem infl_eq (c : Client) : infl c = c.pc.inflight := by
+  obtain ⟨id, kind, pc, bd⟩ := c
+  cases pc <;> rfl
+
+theorem SInv.stepClient {g0 g : G} (h0 : G0OK g0) (hv : KB.SInv g.view) (h : SInv g0 g) {c : Client}
+    (hc : c ∈ g.clients) (f : Fault) : SInv g0 (stepClient g c f) := by
   have hci := h.cl.1 c hc
   have hE := h.toE c.id
+  have hrp : ∀ r, infl c = some r → ∀ p, g.retryPc = some p → p.rev ≠ r := by
+    intro r hr p hp e
+    rw [infl_eq] at hr
+    exact hv.rpcInfl c hc r hr (by simp [G.view, hp, e])
   apply stepClient_cases
   · -- start / create
     intro key val hpc hk
@@ -1162,7 +1248,7 @@ theorem SInv.stepClient {g0 g : G} (h0 : G0OK g0) (h : SInv g0 g) {c : Client} (
     intro rev key val r st hpc hdc
     have hinfl : infl c = some rev := by simp [infl, hpc]
     have hf := hci.fresh hinfl
-    have hA := h.commitE hc hinfl (r := r) (st := st) (f := f) (key := key) (val := some val) (exp := .absent)
+    have hA := h.commitE hc hinfl (hrp _ hinfl) (r := r) (st := st) (f := f) (key := key) (val := some val) (exp := .absent)
       (new := be8 rev) (v := val) (by simp [flagOf]) rfl (by
         rcases doCommit_pine_cases hdc with ⟨ha, hget, hst⟩ | hn
         · exact .inl ⟨ha, hst, fun hb => chainCond_pine h.core hb rev (some val) hget⟩
@@ -1187,7 +1273,7 @@ theorem SInv.stepClient {g0 g : G} (h0 : G0OK g0) (h : SInv g0 g) {c : Client} (
   · -- createRetry
     intro rev key val r st hpc hdc
     have hinfl : infl c = some rev := by simp [infl, hpc]
-    have hA := h.commitE hc hinfl (r := r) (st := st) (f := f) (key := key) (val := some val) (exp := .absent)
+    have hA := h.commitE hc hinfl (hrp _ hinfl) (r := r) (st := st) (f := f) (key := key) (val := some val) (exp := .absent)
       (new := be8 rev) (v := val) (by simp [flagOf]) rfl (by
         rcases doCommit_pine_cases hdc with ⟨ha, hget, hst⟩ | hn
         · exact .inl ⟨ha, hst, fun hb => chainCond_pine h.core hb rev (some val) hget⟩
@@ -1199,7 +1285,7 @@ theorem SInv.stepClient {g0 g : G} (h0 : G0OK g0) (h : SInv g0 g) {c : Client} (
     have hf := hci.fresh hinfl
     simp only [CInv, hpc] at hci
     obtain ⟨_, p, hp, hlt⟩ := hci
-    have hA := h.commitE hc hinfl (r := r) (st := st) (f := f) (key := key) (val := some val) (exp := .absent)
+    have hA := h.commitE hc hinfl (hrp _ hinfl) (r := r) (st := st) (f := f) (key := key) (val := some val) (exp := .absent)
       (new := be8 rev) (v := val) (by simp [flagOf]) rfl (by
         rcases doCommit_cas_cases hdc with ⟨ha, hget, hst⟩ | hn
         · exact .inl ⟨ha, hst, fun hb => chainCond_over h.core hb rev (some val) hget hp hlt⟩
@@ -1225,7 +1311,7 @@ theorem SInv.stepClient {g0 g : G} (h0 : G0OK g0) (h : SInv g0 g) {c : Client} (
     have hf := hci.fresh hinfl
     simp only [CInv, hpc] at hci
     have hle := hci.2 _ _ _ hk
-    have hA := h.commitE hc hinfl (r := r) (st := st) (f := f) (key := key) (val := some val) (exp := .rev exp)
+    have hA := h.commitE hc hinfl (hrp _ hinfl) (r := r) (st := st) (f := f) (key := key) (val := some val) (exp := .rev exp)
       (new := be8 rev) (v := val) (by simp [flagOf]) rfl (by
         rcases doCommit_cas_cases hdc with ⟨ha, hget, hst⟩ | hn
         · refine .inl ⟨ha, hst, fun hb => ?_⟩
@@ -1277,7 +1363,7 @@ theorem SInv.stepClient {g0 g : G} (h0 : G0OK g0) (h : SInv g0 g) {c : Client} (
     have hf := hci.fresh hinfl
     simp only [CInv, hpc] at hci
     have hlt := hci.2
-    have hA := h.commitE hc hinfl (r := r) (st := st) (f := f) (key := key) (val := none) (exp := .rev modRev)
+    have hA := h.commitE hc hinfl (hrp _ hinfl) (r := r) (st := st) (f := f) (key := key) (val := none) (exp := .rev modRev)
       (new := be8 rev ++ [0]) (v := tombstone) rfl rfl (by
         rcases doCommit_cas_cases hdc with ⟨ha, hget, hst⟩ | hn
         · refine .inl ⟨ha, hst, fun hb => ?_⟩
@@ -1310,35 +1396,50 @@ theorem SInv.stepClient {g0 g : G} (h0 : G0OK g0) (h : SInv g0 g) {c : Client} (
 
 /-! ### the other actions, runs, initial states -/
 
-theorem SInv.stepRetry {g0 g : G} (h0 : G0OK g0) (h : SInv g0 g) (f : Fault) : SInv g0 (stepRetry g f) := by
-  apply stepRetry_cases
-  · exact h
-  · intro rest; exact ⟨h.core, h.hist, h.cl, h.dn⟩
-  · intro w rest q val r st hq hget hdc
-    have hE : SInvE g0 { g with dealt := g.dealt + 1, retryQ := q } g.clients :=
-      ⟨h.core.mono (Nat.le_succ _), h.hist, h.cl.mono (Nat.le_succ _), h.dn⟩
+theorem SInv.stepRetryRead {g0 g : G} (h : SInv g0 g) : SInv g0 (stepRetryRead g) := by
+  apply stepRetryRead_cases
+  · intros; exact h
+  · intros; exact h
+  · intro w rest _ _ _; exact ⟨h.core, h.hist, h.cl, h.dn, h.rp⟩
+  · intro w rest val hn hq hget _
     have hle : w.rev ≤ g.dealt := getInternal_le h.core.keys hget
-    have hA := hE.afterCommit (rev := g.dealt + 1) (r := r) (st := st) (f := f) (key := w.key)
-      (val := if isTomb val then none else some val) (exp := .rev w.rev)
-      (new := be8 (g.dealt + 1) ++ if isTomb val then [0] else []) (v := val)
-      (fresh_deal h.core)
-      (fun x hx e => by have := h.cl.le_dealt hx e; omega)
-      (by by_cases ht : isTomb val = true <;> simp [ht, flagOf])
+    refine ⟨h.core.mono (Nat.le_succ _), h.hist, h.cl.mono (Nat.le_succ _), h.dn, ?_⟩
+    intro p hp
+    simp only [Option.some.injEq] at hp
+    subst hp
+    exact ⟨fresh_deal h.core, by show w.rev < g.dealt + 1; omega⟩
+
+theorem SInv.stepRetryCommit {g0 g : G} (h0 : G0OK g0) (hv : KB.SInv g.view) (h : SInv g0 g) (f : Fault) :
+    SInv g0 (stepRetryCommit g f) := by
+  apply stepRetryCommit_cases
+  · intro _; exact h
+  · intro p r st hp hdc
+    obtain ⟨hfr, hlt⟩ := h.rp p hp
+    have hE : SInvE g0 { g with retryPc := none, retryQ := if r == CommitRes.ok || r.isCas then g.retryQ.drop 1 else g.retryQ }
+        g.clients := ⟨h.core, h.hist, h.cl, h.dn, RpOK.none _ _ _⟩
+    have hA := hE.afterCommit (rev := p.rev) (r := r) (st := st) (f := f) (key := p.w.key)
+      (val := if isTomb p.val then none else some p.val) (exp := .rev p.w.rev)
+      (new := be8 p.rev ++ if isTomb p.val then [0] else []) (v := p.val)
+      hfr
+      (fun x hx e => by
+        rw [infl_eq] at e
+        exact hv.rpcInfl x hx p.rev e (by simp [G.view, hp]))
+      (fun q hq => by cases hq)
+      (by by_cases ht : isTomb p.val = true <;> simp [ht, flagOf])
       (by
-        by_cases ht : isTomb val = true
+        by_cases ht : isTomb p.val = true
         · simp only [ht, if_true, Option.getD_none]
           simpa [isTomb] using ht
         · simp [ht])
       (by
         rcases doCommit_cas_cases hdc with ⟨ha, hg, hst⟩ | hn
         · refine .inl ⟨ha, hst, fun hb => ?_⟩
-          have hc' := h.core.mono (Nat.le_succ g.dealt)
-          exact chainCond_rev h0 hc' hb (g.dealt + 1) _ (fl := if isTomb val then [0] else []) hg
-            (by by_cases ht : isTomb val = true <;> simp [ht]) (by omega)
-            (Nat.lt_succ_of_le h.core.d0) (Nat.le_refl _) (fresh_deal h.core).2.2
+          exact chainCond_rev h0 h.core hb p.rev _ (fl := if isTomb p.val then [0] else []) hg
+            (by by_cases ht : isTomb p.val = true <;> simp [ht]) (Nat.le_of_lt hlt)
+            hfr.1 hfr.2.1 hfr.2.2
         · exact .inr hn)
-    have := hA.notify { w with rev := g.dealt + 1, valid := r == .ok, uncertain := r == .uncertain }
-    refine ⟨this.core, this.hist, ?_, this.dn⟩
+    have := hA.notify { p.w with rev := p.rev, valid := r == .ok, uncertain := r == .uncertain }
+    refine ⟨this.core, this.hist, ?_, this.dn, this.rp⟩
     have hcl := this.cl
     simpa using hcl
 
@@ -1346,15 +1447,17 @@ theorem SInv.stepSeq {g0 g : G} (h : SInv g0 g) : SInv g0 (stepSeq g) := by
   unfold KB.stepSeq
   split
   · exact h
-  · exact ⟨h.core.mono (Nat.le_max_left _ _), h.hist, h.cl.mono (Nat.le_max_left _ _), h.dn⟩
+  · exact ⟨h.core.mono (Nat.le_max_left _ _), h.hist, h.cl.mono (Nat.le_max_left _ _), h.dn,
+      h.rp.mono (Nat.le_max_left _ _)⟩
 
-theorem SInv.act {g0 g : G} (h0 : G0OK g0) (h : SInv g0 g) (a : Action) : SInv g0 (act g a) := by
+theorem SInv.act {g0 g : G} (h0 : G0OK g0) (hv : KB.SInv g.view) (h : SInv g0 g) (a : Action) :
+    SInv g0 (act g a) := by
   cases a with
   | begin id kind =>
     unfold KB.act; simp only []
     split
     · exact h
-    · refine ⟨h.core, h.hist, ?_, h.dn⟩
+    · refine ⟨h.core, h.hist, ?_, h.dn, h.rp⟩
       have hmem : ∀ x ∈ g.clients ++ [{ id := id, kind := kind, pc := .start, beginDealt := g.dealt }],
           x ∈ g.clients ∨ infl x = none ∧ x.pc = .start := by
         intro x hx
@@ -1377,14 +1480,17 @@ theorem SInv.act {g0 g : G} (h0 : G0OK g0) (h : SInv g0 g) (a : Action) : SInv g
     split
     · exact h
     · rename_i c hfind
-      exact h.stepClient h0 (List.mem_of_find?_eq_some hfind) f
+      exact h.stepClient h0 hv (List.mem_of_find?_eq_some hfind) f
   | seq => exact h.stepSeq
-  | retry f => exact h.stepRetry h0 f
+  | retry f => exact h.stepRetryRead.stepRetryCommit h0 (stepRetryRead_P KB.SInv.closed hv) f
+  | retryRead => exact h.stepRetryRead
+  | retryCommit f => exact h.stepRetryCommit h0 hv f
 
-theorem SInv.run {g0 g : G} (h0 : G0OK g0) (h : SInv g0 g) (sched : List Action) : SInv g0 (run g sched) := by
+theorem SInv.run {g0 g : G} (h0 : G0OK g0) (hv : KB.SInv g.view) (h : SInv g0 g) (sched : List Action) :
+    SInv g0 (run g sched) := by
   induction sched generalizing g with
   | nil => exact h
-  | cons a s ih => exact ih (h.act h0 a)
+  | cons a s ih => exact ih (act_P KB.SInv.closed a hv) (h.act h0 hv a)
 
 theorem G0OK.of_storeOK {g0 : G} (hs : C02.StoreOK g0) : G0OK g0 := by
   obtain ⟨recs, hst, _, hrecs, hb⟩ := hs
@@ -1408,18 +1514,22 @@ theorem G0OK.of_storeOK {g0 : G} (hs : C02.StoreOK g0) : G0OK g0 := by
     omega
 
 theorem SInv.init {g0 : G} (hi : C02.Init g0) (h0 : G0OK g0) : SInv g0 g0 := by
-  obtain ⟨⟨_, _, hcl, _⟩, hh, hw, hd⟩ := hi
-  refine ⟨⟨Nat.le_refl _, h0.keys0, ?_, ?_, ?_⟩, ?_, ?_, ?_⟩
+  obtain ⟨⟨_, _, hcl, _, hp⟩, hh, hw, hd⟩ := hi
+  refine ⟨⟨Nat.le_refl _, h0.keys0, ?_, ?_, ?_⟩, ?_, ?_, ?_, ?_⟩
   · simp [hw]
   · intro _ k; simp [hw, lastW, IdxOK]
   · simp [hw]
   · simp [hh, hw]
   · simp [hcl, Cl]
   · simp [hd, Dn]
+  · rw [hp]; exact RpOK.none _ _ _
+
+theorem vinv_init {g0 : G} (hi : C02.Init g0) : KB.SInv g0.view :=
+  KB.SInv.init hi.1.1 hi.1.2.1 hi.1.2.2.1 hi.1.2.2.2.2
 
 theorem SInv.reachable {g0 g : G} (hi : C02.Init g0) (hs : C02.StoreOK g0) (hr : Reachable g0 g) : SInv g0 g := by
   obtain ⟨sched, rfl⟩ := hr
-  exact (SInv.init hi (G0OK.of_storeOK hs)).run (G0OK.of_storeOK hs) sched
+  exact (SInv.init hi (G0OK.of_storeOK hs)).run (G0OK.of_storeOK hs) (vinv_init hi) sched
 
 /-! ### consequences of the chain property -/
 
@@ -1523,7 +1633,7 @@ def bump : List Action := [.begin 0 (.delete [] 0), .step 0 .none, .step 0 .none
 theorem run_bump (g : G) (hc : g.clients = []) (hs : g.store = []) :
     (run g bump).clients = [] ∧ (run g bump).store = [] ∧ (run g bump).wlog = g.wlog ∧
     (run g bump).dealt = g.dealt + 1 := by
-  obtain ⟨cfg, store, dealt, committed, slots, retryQ, clients, emitted, hist, wlog, done⟩ := g
+  obtain ⟨cfg, store, dealt, committed, slots, retryQ, retryPc, clients, emitted, hist, wlog, done⟩ := g
   simp only at hc hs
   subst hc hs
   simp [run, bump, act, G.client, stepClient, bget_nil, G.setClient, G.finish, G.notify, mkW]
@@ -1550,7 +1660,7 @@ theorem run_mkCreate (g : G) (hc : g.clients = []) (hs : g.store = []) (hw : g.w
     (hm : (g.dealt + 1) % 2 ^ 64 ≠ 0) :
     (run g mkCreate).wlog = [⟨[47], g.dealt + 1, some [1], .absent⟩] ∧
     (run g mkCreate).store.get (idxKey [47]) = some (be8 (g.dealt + 1)) := by
-  obtain ⟨cfg, store, dealt, committed, slots, retryQ, clients, emitted, hist, wlog, done⟩ := g
+  obtain ⟨cfg, store, dealt, committed, slots, retryQ, retryPc, clients, emitted, hist, wlog, done⟩ := g
   simp only at hc hs hw hm
   subst hc hs hw
   simp [run, mkCreate, act, G.client, stepClient, G.setClient, createOps, doCommit, commit, applyOps, applyOp,
@@ -1568,7 +1678,7 @@ theorem index_agrees_needs_bound :
       ∃ w, (g.wlog.filter (fun x => x.key == w.key)).getLast? = some w ∧
         (g.store.get (idxKey w.key)).bind parseRevision ≠ some (w.rev, w.val.isNone) := by
   refine ⟨{}, run (run {} (bumps (2 ^ 64))) mkCreate, ?_, ?_, ⟨bumps (2 ^ 64) ++ mkCreate, run_append _ _ _⟩, ?_⟩
-  · exact ⟨⟨rfl, rfl, rfl, rfl⟩, rfl, rfl, rfl⟩
+  · exact ⟨⟨rfl, rfl, rfl, rfl, rfl⟩, rfl, rfl, rfl⟩
   · exact ⟨[], rfl, List.Pairwise.nil, by simp, by decide⟩
   · obtain ⟨h1, h2, h3, h4⟩ := run_bumps (2 ^ 64) {} rfl rfl
     have h4' : (run {} (bumps (2 ^ 64))).dealt = 2 ^ 64 := by rw [h4]
